@@ -117,3 +117,163 @@ Proof.
   split; [exact H|].
   apply (Permutation_in _ (Permutation_sym Hp)). exact H.
 Qed.
+
+(* ======================================================================================================================
+   SOURCE-DERIVED MODEL.  Gen/CombiSchemeGen.v is written by harness/translate/py2gallina.py from
+   sparseSpACE/combiScheme.py (+ Utils.get_cross_product) at every ./setup.sh and ./check C01 run, in terms of the
+   semantics library Base/PyLib.v.  The theorems below are re-checked against what the source says NOW: if the source
+   changes its meaning, Gen/CombiSchemeGen.v changes and these obligations break.
+   Part 1: every translated function agrees with the hand-written model (conc s = the object holding model state s).
+   Part 2: the main C01 theorems restated for the generated definitions.
+   Part 3: independence of the order in which Python enumerates a set.
+   ====================================================================================================================== *)
+From SG Require Import Base.PyLib Gen.CombiSchemeGen Proofs.GenCombiSchemeEq.
+
+(* ---- part 1: generated function = hand-written model, for all inputs (preconditions = where Python raises
+        IndexError / RecursionError while the total hand-written model still answers) *)
+Theorem C01_gen_eq_get_cross_product : forall ls, Utils_get_cross_product ls = Some (cross ls).
+Proof. exact gen_get_cross_product. Qed.
+Theorem C01_gen_eq_getGrids : forall d v, 1 <= d -> CombiScheme_getGrids d v = Some (getGrids (Z.to_nat d) v).
+Proof. exact gen_getGrids. Qed.
+(* recursion fuel: the declared measure S (Z.to_nat dim_left) is sufficient (more fuel changes nothing), and for
+   dim_left < 1 the Python recursion never ends (RecursionError): no amount of fuel yields a result *)
+Theorem C01_gen_getGrids_fuel_sufficient : forall d v fuel, 1 <= d -> (Z.to_nat d <= fuel)%nat ->
+  CombiScheme_getGrids_rec fuel d v = CombiScheme_getGrids d v.
+Proof. exact gen_getGrids_fuel_sufficient. Qed.
+Theorem C01_gen_getGrids_diverges : forall fuel d v, d <= 0 -> 0 < v -> CombiScheme_getGrids_rec fuel d v = None.
+Proof. exact gen_getGrids_diverges. Qed.
+Theorem C01_gen_eq_init_active_index_set : forall lmax lmin dim, 1 <= dim ->
+  CombiScheme_init_active_index_set lmax lmin dim = Some (init_active_index_set lmax lmin (Z.to_nat dim)).
+Proof. exact gen_init_active_index_set. Qed.
+Theorem C01_gen_eq_init_old_index_set : forall lmax lmin dim, 1 <= dim ->
+  CombiScheme_init_old_index_set lmax lmin dim = Some (init_old_index_set lmax lmin (Z.to_nat dim)).
+Proof. exact gen_init_old_index_set. Qed.
+Theorem C01_gen_eq_init : forall dim lmax lmin, 1 <= dim ->
+  exists o0, CombiScheme___init__ dim = Some o0 /\
+    CombiScheme_init_adaptive_combi_scheme o0 lmax lmin =
+      match init_scheme (Z.to_nat dim) lmax lmin with Some s => Some (tt, conc s) | None => None end.
+Proof. exact gen_init. Qed.
+Theorem C01_gen_eq_is_refinable : forall s l, CombiScheme_is_refinable (conc s) l = Some (mem l (s_active s), conc s).
+Proof. exact gen_is_refinable. Qed.
+Theorem C01_gen_eq_is_old_index : forall s l, CombiScheme_is_old_index (conc s) l = Some (mem l (s_old s), conc s).
+Proof. exact gen_is_old_index. Qed.
+Theorem C01_gen_eq_in_index_set : forall s l,
+  CombiScheme_in_index_set (conc s) l = Some (mem l (s_active s) || mem l (s_old s), conc s).
+Proof. exact gen_in_index_set. Qed.
+Theorem C01_gen_eq_refine_scheme : forall s d l, (d < s_dim s)%nat -> length l = s_dim s ->
+  CombiScheme___refine_scheme (conc s) (Z.of_nat d) l =
+    Some (fst (refine_scheme d l s), conc (snd (refine_scheme d l s))).
+Proof. exact gen_refine_scheme. Qed.
+Theorem C01_gen_eq_update_adaptive_combi : forall s l, (mem l (s_active s) = true -> length l = s_dim s) ->
+  CombiScheme_update_adaptive_combi (conc s) l =
+    Some (ret_dims (fst (update_scheme s l)), conc (snd (update_scheme s l))).
+Proof. exact gen_update_adaptive_combi. Qed.
+Theorem C01_gen_eq_get_index_set : forall s,
+  CombiScheme_get_index_set (conc s) = Some (set_union (s_old s) (s_active s), conc s).
+Proof. exact gen_get_index_set. Qed.
+Theorem C01_gen_eq_get_coefficients_to_index_set : forall s idx, (forall g, In g idx -> length g = s_dim s) ->
+  CombiScheme_get_coefficients_to_index_set (conc s) idx = Some (map grid_of (coefficients (s_lmin s) idx), conc s).
+Proof. exact gen_get_coefficients_to_index_set. Qed.
+Theorem C01_gen_eq_getCombiScheme_adaptive : forall s lmin lmax do_print, WFlen s ->
+  CombiScheme_getCombiScheme (conc s) lmin lmax do_print = Some (map grid_of (combi_scheme_adaptive s), conc s).
+Proof. exact gen_getCombiScheme_adaptive. Qed.
+Theorem C01_gen_eq_getCombiScheme_standard : forall n lmin lmax do_print,
+  exists o0, CombiScheme___init__ (Z.of_nat (S n)) = Some o0 /\
+    CombiScheme_getCombiScheme o0 lmin lmax do_print = Some (map grid_of (combi_scheme_standard (S n) lmin lmax), o0).
+Proof. exact gen_getCombiScheme_standard. Qed.
+(* functions without a hand-written counterpart: specification in the model's vocabulary *)
+Theorem C01_gen_spec_has_forward_neighbour : forall s l, length l = s_dim s ->
+  CombiScheme_has_forward_neighbour (conc s) l =
+    Some (existsb (fun d => mem (bump d 1 l) (s_active s) || mem (bump d 1 l) (s_old s)) (seq 0 (s_dim s)), conc s).
+Proof. exact gen_has_forward_neighbour. Qed.
+Theorem C01_gen_spec_extendable_level : forall s l, (s_dim s <= length l)%nat ->
+  CombiScheme_extendable_level (conc s) l = Some (extendable_level_spec (s_dim s) l, conc s).
+Proof. exact gen_extendable_level. Qed.
+Print Assumptions C01_gen_eq_update_adaptive_combi.
+Print Assumptions C01_gen_eq_getCombiScheme_adaptive.
+Print Assumptions C01_gen_eq_getCombiScheme_standard.
+Print Assumptions C01_gen_eq_init.
+
+(* ---- part 2: the main C01 theorems for the GENERATED definitions.
+   gen_fresh dim lmax lmin = CombiScheme(dim) followed by init_adaptive_combi_scheme(lmax, lmin);
+   gen_updates o ops = the update_adaptive_combi requests ops one after the other; None = an exception was raised *)
+
+(* every history of arbitrary update requests: no exception, the generated state is the hand-written model's state,
+   and the invariant holds *)
+Theorem C01_gen_reachable_inv : forall n lmax lmin o1 ops, gen_fresh (Z.of_nat (S n)) lmax lmin = Some o1 ->
+  exists s, gen_updates o1 ops = Some (conc s) /\ Inv s.
+Proof. exact gen_reachable_inv. Qed.
+Theorem C01_gen_tracks_model : forall n lmax lmin o1 ops, gen_fresh (Z.of_nat (S n)) lmax lmin = Some o1 ->
+  exists s0, init_scheme (S n) lmax lmin = Some s0 /\ o1 = conc s0 /\
+    gen_updates o1 ops = Some (conc (fold_left update ops s0)) /\ Inv (fold_left update ops s0).
+Proof. exact gen_reachable. Qed.
+Theorem C01_gen_fresh_defined : forall n lmax lmin, 0 <= lmin <= lmax ->
+  exists o1, gen_fresh (Z.of_nat (S n)) lmax lmin = Some o1.
+Proof. exact gen_fresh_defined. Qed.
+(* inclusion-exclusion, support, total one for what the generated getCombiScheme returns; membership decided by
+   the generated in_index_set *)
+Theorem C01_gen_inclusion_exclusion : forall s lmin' lmax' do_print, Inv s ->
+  exists zs, CombiScheme_getCombiScheme (conc s) lmin' lmax' do_print = Some (map grid_of zs, conc s) /\
+    (forall l b, length l = s_dim s -> Forall (fun x => s_lmin s <= x) l ->
+       CombiScheme_in_index_set (conc s) l = Some (b, conc s) ->
+       dominating_sum zs l = if b then 1 else 0) /\
+    (forall k c, In (k, c) zs -> CombiScheme_in_index_set (conc s) k = Some (true, conc s) /\ c <> 0) /\
+    sumZ (map snd zs) = 1.
+Proof. exact gen_inclusion_exclusion. Qed.
+(* no active index has a forward neighbour, as answered by the generated has_forward_neighbour *)
+Theorem C01_gen_no_forward_neighbour : forall s k, Inv s -> In k (s_active s) ->
+  CombiScheme_has_forward_neighbour (conc s) k = Some (false, conc s).
+Proof. exact gen_has_forward_neighbour_active. Qed.
+(* closed form = adaptive scheme right after initialisation, both from the generated getCombiScheme *)
+Theorem C01_gen_std_equals_adaptive_init : forall n lmin lmax o1 p1 p2 a b,
+  gen_fresh (Z.of_nat (S n)) lmax lmin = Some o1 ->
+  exists o0 cs_std cs_ad,
+    CombiScheme___init__ (Z.of_nat (S n)) = Some o0 /\
+    CombiScheme_getCombiScheme o0 lmin lmax p1 = Some (cs_std, o0) /\
+    CombiScheme_getCombiScheme o1 a b p2 = Some (cs_ad, o1) /\
+    Permutation cs_std cs_ad.
+Proof. exact gen_std_equals_adaptive_init. Qed.
+Print Assumptions C01_gen_reachable_inv.
+Print Assumptions C01_gen_tracks_model.
+Print Assumptions C01_gen_inclusion_exclusion.
+Print Assumptions C01_gen_std_equals_adaptive_init.
+
+(* ---- part 3: the enumeration order of Python sets is unspecified; the generated model uses the list order.
+   (a) the only place where the source enumerates a set (get_coefficients_to_index_set): the C01 statements hold for the
+       coefficients computed from ANY enumeration of the index set;  (b) get_index_set builds old | active where
+       getCombiScheme builds active | old: the same set;  (c) the invariant and the whole update state machine are
+       independent of the order in which the two sets are stored *)
+Theorem C01_gen_ie_any_enumeration : forall s idx' l, Inv s -> Permutation idx' (index_set s) ->
+  length l = s_dim s -> Forall (fun x => s_lmin s <= x) l ->
+  dominating_sum (coefficients (s_lmin s) idx') l = if mem l (index_set s) then 1 else 0.
+Proof. exact ie_any_enumeration. Qed.
+Theorem C01_gen_total_one_any_enumeration : forall s idx', Inv s -> Permutation idx' (index_set s) ->
+  sumZ (map snd (coefficients (s_lmin s) idx')) = 1.
+Proof. exact total_one_any_enumeration. Qed.
+Theorem C01_gen_get_index_set_same_set : forall s, Inv s ->
+  exists idx, CombiScheme_get_index_set (conc s) = Some (idx, conc s) /\ Permutation idx (index_set s).
+Proof. exact gen_get_index_set_perm. Qed.
+Theorem C01_gen_inv_order_insensitive : forall s a' o', Inv s -> Permutation (s_active s) a' -> Permutation (s_old s) o' ->
+  Inv (mkScheme (s_dim s) (s_lmin s) (s_lmax s) (s_lmax_adaptive s) a' o').
+Proof. exact Inv_perm. Qed.
+Theorem C01_gen_update_order_insensitive : forall s t l, scheme_equiv s t ->
+  fst (update_scheme s l) = fst (update_scheme t l) /\ scheme_equiv (snd (update_scheme s l)) (snd (update_scheme t l)).
+Proof. exact update_scheme_perm. Qed.
+Print Assumptions C01_gen_ie_any_enumeration.
+Print Assumptions C01_gen_update_order_insensitive.
+
+(* non-vacuity on the generated code itself: d=3, lmin=1, lmax=3, three refinements, evaluated by the generated functions *)
+Example C01_gen_nonvacuous :
+  exists o1 o2 cs, gen_fresh 3 3 1 = Some o1 /\ gen_updates o1 [[1;1;3]; [1;2;2]; [1;1;4]] = Some o2 /\
+    length (f_active_index_set o2) = 6%nat /\
+    CombiScheme_getCombiScheme o2 1 2 true = Some (cs, o2) /\ length cs = 11%nat /\
+    In ([1;1;5], py_Z2Qc 1) cs /\ In ([1;1;2], py_Z2Qc (-1)) cs /\
+    option_map fst (CombiScheme_update_adaptive_combi o2 [1;1;5]) = Some (Some [2]) /\
+    option_map fst (CombiScheme_update_adaptive_combi o2 [1;1;4]) = Some None.
+Proof.
+  eexists. eexists. eexists.
+  split; [vm_compute; reflexivity|]. split; [vm_compute; reflexivity|]. split; [vm_compute; reflexivity|].
+  split; [vm_compute; reflexivity|]. split; [vm_compute; reflexivity|].
+  split; [vm_compute; tauto|]. split; [vm_compute; tauto|].
+  split; vm_compute; reflexivity.
+Qed.
